@@ -605,6 +605,7 @@ class Engine(_Base, ExprMixin, CallMixin, StmtMixin):
                     continue
                 cls, cond = matched
                 s2 = s
+                s2.ghost['$raised'] = s.exc[1]      # the exception object, for exceptional postconditions that speak about it
                 s2.exc = None
                 if cond != MAY:
                     pv = self.pre_view(s2, entry)
